@@ -326,7 +326,7 @@ def rand_cfg(rng):
 
 def cases(rng, tier):
     T.selfcheck()
-    n = {"quick": 2000, "thorough": 40000, "search": 400}[tier]
+    n = {"quick": 2000, "thorough": 20000, "search": 400}[tier]
     for _ in range(n):
         cfg = rand_cfg(rng)
         kept = T.ref_kept(cfg["lines"], cfg["syntax"] == "ios", cfg["ignore_blank"])
